@@ -359,6 +359,35 @@ def pools(ctx, sut):
     probe = probe_cls({"p": "v"})
     internals = sorted((set(vars(probe)) | set(dir(probe)) | set(vars(probe_cls)) | set(vars(sut.Object)))
                        - {"p"})
+    # ... and the names it sets or deletes on an instance only WHILE building it (scratch attributes that are
+    # gone again when the constructor returns), on the ordinary route and on the route through a class default
+    transient = set()
+    try:
+        def recording(base):
+            class Recorder(base):  # pylint: disable=too-few-public-methods
+                def __setattr__(self, key, value):
+                    transient.add(key)
+                    super().__setattr__(key, value)
+
+                def __delattr__(self, key):
+                    transient.add(key)
+                    super().__delattr__(key)
+
+            return Recorder
+
+        with_default = sut.parse_direct({"type": "object", "title": "ProbeD", "default": {"p": "d"},
+                                         "properties": {"p": {"type": "string"}, "q": {"default": 1}}})
+        for base, args in ((probe_cls, [({"p": "v"},), ({},)]), (with_default, [(), ({"p": "v"},), (sut.NotPassed(),)])):
+            rec = recording(base)
+            for arg in args:
+                try:
+                    rec(*arg)
+                except Exception:  # pylint: disable=broad-except
+                    ctx.count("pool.internals.recorder_call_refused")
+        ctx.count("pool.internals.transient_names_seen", len(transient - {"p", "q"}))
+    except Exception as exc:  # pylint: disable=broad-except
+        ctx.count("pool.internals.recorder_unavailable." + type(exc).__name__)
+    internals = sorted((set(internals) | transient) - {"p", "q"})
     internals = [name for name in internals if not (name.startswith("__") and name.endswith("__"))]
     for idx, name in enumerate(internals):
         if idx % ctx.nshards == ctx.shard:
